@@ -227,6 +227,15 @@ func runC07(c *core.Ctx) {
 			if in == nil {
 				continue
 			}
+			if i%3 == 2 && pair%nU < uint64(len(gen.Registered)) {
+				// a non-canonical encoding that the library itself still decodes as a U (surplus words,
+				// padding shapes, odd inner values): it is a packet of type U for every practical purpose
+				m := softMutate(r, in)
+				if ps, err, pan := gUnmarshal(cloneBytes(m)); pan == "" && err == nil && len(ps) == 1 && gen.KindOf(ps[0]) == gen.Registered[pair%nU] {
+					in = m
+					cs.Count("foreign-noncanonical")
+				}
+			}
 			_, err, pan := gUnmarshalOwn(T, cloneBytes(in))
 			cs.Eval(1)
 			cs.Distinct(core.Digest([]byte(T.String()), in))
